@@ -203,6 +203,16 @@ fn expected_for(ast: &Aidl, defined: &BTreeMap<String, Vec<ResolvedItemKind>>, f
                 continue;
             }
             names.insert(m.name.clone(), m);
+            // the code a method carries is the decimal value of the literal written after `=` (if it fits u32), read off the source
+            let lit: String = src[m.transact_code_range.start.offset..m.transact_code_range.end.offset].chars().filter(|c| c.is_ascii_digit()).collect();
+            let written: Option<u32> = if lit.is_empty() { None } else { lit.parse::<u64>().ok().and_then(|v| u32::try_from(v).ok()) };
+            if !lit.is_empty() && written.is_none() {
+                // a literal that does not fit u32: no code, one Error from the literal to the end of the `= literal` clause
+                let tc = &src[m.transact_code_range.start.offset..m.transact_code_range.end.offset];
+                let d0 = m.transact_code_range.start.offset + tc.find(|c: char| c.is_ascii_digit()).unwrap();
+                ex.push(Exp { prop: "C09", err: true, range: (d0, m.transact_code_range.end.offset), related: None, what: format!("transact code literal {} does not fit", lit) });
+            }
+            if m.transact_code != written { findings.push(format!("WITNESS property=C09 method `{}`: transact code literal {:?} stored as {:?}, expected {:?}; source: {:?}", m.name, lit, m.transact_code, written, src)); }
             let with = m.transact_code.is_some();
             if with && first_with.is_none() { if let Some(o) = first_without { ex.push(Exp { prop: "C09", err: true, range: r(&m.transact_code_range), related: Some(r(&o.transact_code_range)), what: format!("mixed at {}", m.name) }); } }
             if !with && first_without.is_none() { if let Some(o) = first_with { ex.push(Exp { prop: "C09", err: true, range: r(&m.transact_code_range), related: Some(r(&o.transact_code_range)), what: format!("mixed at {}", m.name) }); } }
@@ -330,6 +340,11 @@ fn oracle_all() {
             projects.push(vec![(0, s)]);
         }
     }
+    // ---- family 4b (C09): how a code is written: zero padding, the largest code, one past it
+    let lits = ["0", "00", "7", "007", "8", "010", "10", "009", "9", "012", "4294967295", "4294967296", "0004294967295"];
+    for a in lits.iter() { for b in lits.iter() {
+        projects.push(vec![(0, format!("package p;\ninterface I {{\n  void m1() = {};\n  const int K = 1;\n  void m2() = {};\n  void m3() = 5;\n}}\n", a, b))]);
+    } }
     // ---- family 6 (C07/C09/C10 together): repeated method names whose later occurrences break direction / return rules
     let shapes = ["void {n}();", "void {n}(out int v, int[] w);", "oneway int {n}();", "oneway void {n}(inout ParcelFileDescriptor p) = 1;", "long {n}(in String s) = 1;"];
     for io in [false, true].iter() { for a in 0..shapes.len() { for b in 0..shapes.len() { for c in 0..shapes.len() {
